@@ -58,7 +58,10 @@ TReturn == /\ IsEvent("return") /\ phase = "done" /\ ~ret
               /\ [kind |-> e.kind, errs |-> Range(e.errs)] \in Outcomes
               /\ Len(e.errs) = Cardinality(Range(e.errs))
            /\ PrintT(<<"ACC", c0>>)              \* this case has a complete behaviour of Eval
-           /\ ret' = TRUE /\ ToIdle /\ UNCHANGED c0
+           /\ ret' = TRUE /\ ToIdle /\ c0' = 0
+\* cfg is fixed by c0 and log by (c0, l) - every callback appended is the trace line consumed -
+\* so they need not be fingerprinted
+TView == <<l, c0, ret, registered, sets, order, phase, ri, si, ei, errs, result>>
 TraceNext == TReset \/ TOrder \/ TEndDSL \/ TCb \/ TSilent \/ TReturn
 TraceSpec == TraceInit /\ [][TraceNext]_tvars
 
@@ -67,7 +70,7 @@ TraceSpec == TraceInit /\ [][TraceNext]_tvars
 RECURSIVE NextReset(_)
 NextReset(k) == IF k > Len(TraceLog) \/ TraceLog[k].ev = "reset" THEN k ELSE NextReset(k + 1)
 TSkipCase == /\ l <= Len(TraceLog) /\ TraceLog[l].ev = "reset" /\ phase = "done" /\ ret
-             /\ l' = NextReset(l + 1) /\ UNCHANGED <<vars, ret, c0>>
+             /\ l' = NextReset(l + 1) /\ UNCHANGED <<vars, ret, c0>>      \* (c0 = 0 between cases)
 JudgeSpec == TraceInit /\ [][TraceNext \/ TSkipCase]_tvars
 HWM == IF l > TLCGet(1) THEN TLCSet(1, l) ELSE TRUE
 TraceAccepted == PrintT(<<"HWM", TLCGet(1)>>) /\ TLCGet(1) = Len(TraceLog) + 1
